@@ -244,7 +244,12 @@ def main():
             violations_new.append(v)
 
     # vacuity: every assertion id written in the harness sources must have been checked
+    reached_all = set()
+    for e in res["entries"]:
+        reached_all.update(k for k, n in e["reached"].items() if n)
     for aid in sorted(expected_ids):
+        if aid in reached_all:
+            continue
         if aid not in seen_ids or seen_ids[aid]["checked"] == 0:
             # ids belonging to known-finding demo entries that are not registered are skipped
             problems.append("assertion %s was never reached (vacuous harness?)" % aid)
